@@ -4,7 +4,7 @@ import os, re, subprocess, sys
 VERIF = os.path.dirname(os.path.dirname(os.path.abspath(__file__)))
 p = os.path.join(VERIF, "DESIGN.md")
 s = open(p).read()
-for name, script in (("SEEDED-TABLE", "seeded_table.py"), ("EVIDENCE-TABLE", "evidence_table.py")):
+for name, script in (("SEEDED-TABLE", "seeded_table.py"), ("EVIDENCE-TABLE", "evidence_table.py"), ("MECH-TABLE", "mutants_table.py")):
     out = subprocess.run([sys.executable, os.path.join(VERIF, "lib", script)], stdout=subprocess.PIPE, text=True).stdout
     a, b = s.index("<!-- %s-BEGIN -->" % name), s.index("<!-- %s-END -->" % name)
     s = s[:a] + "<!-- %s-BEGIN -->\n%s" % (name, out) + s[b:]
